@@ -418,6 +418,10 @@ SEED_PROGS = [
     {'ins': [['U', 'Saw', 'audio', [C('1')]], ['U', 'Saw', 'audio', [C('2')]], ['U', 'Saw', 'audio', [C('3')]],
              ['bin', 'add', V(0), V(1)], ['bin', 'add', V(3), V(2)], ['bin', 'mul', V(3), V(4)], ['bin', 'mul', V(5), V(4)],
              ['out', 'audio', C('0'), [V(4)]]]},
+    # F22: n - n where n = -(p + q): _optimize_sub without the `a is b` guard
+    {'ins': [['U', 'Saw', 'audio', [C('1')]], ['U', 'Saw', 'audio', [C('2')]], ['bin', 'add', V(0), V(1)], ['un', 'neg', V(2)],
+             ['bin', 'sub', V(3), V(3)], ['out', 'audio', C('0'), [V(4)]]]},
+    {'ins': [['U', 'Saw', 'audio', [C('1')]], ['un', 'neg', V(0)], ['bin', 'sub', V(1), V(1)], ['out', 'audio', C('0'), [V(2)]]]},
     # invalid: control signal into Out.ar
     {'ins': [['U', 'Saw', 'control', [C('1')]], ['out', 'audio', C('0'), [V(0)]]]},
     {'ins': [['U', 'Saw', 'control', [C('1')]], ['raise', 'exc']]},
